@@ -1,6 +1,6 @@
 (* C13 — setup and dispose reach every system once. Statements only; proofs in VisitProps.v
    (visit lists) and SysDataProps.v (what setup does to the world). *)
-From Shred Require Import Base SrcParams Plan PlanObs PlanLemmas PlanInv PlanLoc PlanBuild PlanProps Visit VisitProps.
+From Shred Require Import Base SrcParams Plan PlanObs PlanLemmas PlanInv PlanLoc PlanBuild PlanProps Visit VisitProps World WorldProps WorldMap SysData SysDataProps.
 From Coq Require Import Permutation.
 
 (* [visits rs]: the systems whose hook Dispatcher::setup (resp. ::dispose) calls, in call
@@ -12,6 +12,34 @@ Theorem C13_setup_and_dispose_visit_every_system_once :
   forall rs, wf_level rs -> Permutation (visits rs) (leaf_tags rs).
 Proof. exact visits_perm. Qed.
 Print Assumptions C13_setup_and_dispose_visit_every_system_once.
+
+(* ---- what the library's setup code does to the world (the setup of a system's data type;
+   a batch controller's declared data is set up the same way) ---- *)
+
+(* for every type expression and every world (any subset of the resources present, any values):
+   an existing resource is never modified; a missing resource is created exactly when it is
+   reached through a default-providing accessor, with the default value; the optional and the
+   expecting accessors create nothing *)
+Theorem C13_setup_never_clobbers_and_creates_only_defaults :
+  forall dflt d w k,
+  mget (sd_setup dflt d w) k =
+  match mget w k with
+  | Some v => Some v
+  | None => if (snd k =? 0)%N then (if memN (fst k) (default_tys d) then Some (dflt (fst k)) else None) else None
+  end.
+Proof. exact sd_setup_spec. Qed.
+Print Assumptions C13_setup_never_clobbers_and_creates_only_defaults.
+
+(* setup called repeatedly changes nothing more; guards and the drop ledger are untouched *)
+Theorem C13_setup_is_idempotent :
+  forall dflt d w k, mget (sd_setup dflt d (sd_setup dflt d w)) k = mget (sd_setup dflt d w) k.
+Proof. exact sd_setup_idempotent. Qed.
+Print Assumptions C13_setup_is_idempotent.
+
+Theorem C13_setup_drops_nothing :
+  forall dflt d w, guards (sd_setup dflt d w) = guards w /\ dropped (sd_setup dflt d w) = dropped w.
+Proof. exact sd_setup_keeps_guards. Qed.
+Print Assumptions C13_setup_drops_nothing.
 
 Example C13_example :
   let rs := [RTL 9; RSys 1 [] [] [] [8] 3%Z;
